@@ -578,6 +578,9 @@ func runDirected(c *Ctx, ties []tie, cases *[]string) {
 		for i := 0; i < c.Scale(100, 500) && !failed(); i++ {
 			tgStress(c, c.R.U64()) // late Add racing with Stop
 		}
+		for i := 0; i < 5 && !failed(); i++ {
+			tgRace(c, c.R.U64())
+		}
 		c.Res.Count("directed:threadgroup")
 	}
 	if areas["close"] && !failed() {
@@ -585,6 +588,9 @@ func runDirected(c *Ctx, ties []tie, cases *[]string) {
 			cfg := bedConfig{MaxSubnet: subnetLimits[i%5], MaxRPC: 1 + i%3, MaxIn: 64, MaxOut: 16, V4Bits: 24}
 			cs, _ := phasedScenario(c, c.R.U64(), cfg, i%3+3*(1+i%3))
 			*cases = append(*cases, cs...)
+		}
+		for i := 0; i < 64 && !failed(); i++ {
+			closeWhileConnecting(c, c.R.U64(), i)
 		}
 		for i := 0; i < 16 && !failed(); i++ {
 			rhp4Shutdown(c, c.R.U64(), i, cases)
